@@ -10,6 +10,12 @@
 //! Direct oracle on every decode (also for the types with hand-written codecs, harvested from real group histories):
 //! no panic, consumed <= input, encoded length == bytes written, wire types re-encode to exactly the bytes consumed,
 //! produced values round-trip exactly and consume everything, peak allocation bounded by a fixed multiple of the input.
+//!
+//! Termination ("total", "bounded"): every single codec call (decode / size / encode) runs under a wall-clock deadline
+//! (`--deadline_s`, default 20; `Shared::timed` + `spawn_watchdog`): a call that does not return is reported with type, phase
+//! and input, the rows written so far are flushed, the summary is printed and the process ends.  Independently of any clock,
+//! section (0b) counts element decodes of the generic containers with instrumented element types (`tick`): the number of
+//! element decodes is bounded by the input length, also for zero-size elements and huge declared lengths.
 use crate::c12types::*;
 use crate::hist::*;
 use crate::util::{hex, Opts, Rng, QA};
@@ -22,6 +28,9 @@ use mls_rs::MlsMessage;
 use mls_rs_core::group::GroupStateStorage;
 use mls_rs_crypto_rustcrypto::RustCryptoProvider;
 use std::collections::{BTreeMap, BTreeSet, HashMap};
+use std::sync::atomic::Ordering::Relaxed;
+use std::sync::{Arc, Mutex, MutexGuard};
+use std::time::{Duration, Instant};
 
 // ---------------------------------------------------------------------------------------------------------------------
 // schema (text form written by tools/translate_schemas.py)
@@ -527,13 +536,21 @@ fn r_maps(r: &mut Rng) -> VMaps {
 // ---------------------------------------------------------------------------------------------------------------------
 // probes
 
+/// which call of a probe is running, for the watchdog (the marker of the hook, so that there is one place to look at)
+fn phase(p: u8) {
+    mls_rs::verif::codec::PHASE.store(p, Relaxed);
+}
+
 fn probe_plain<T: MlsDecode + MlsEncode + MlsSize>(bytes: &[u8]) -> String {
     let mut r = bytes;
+    phase(1);
     match T::mls_decode(&mut r) {
         Err(_) => "err".into(),
         Ok(v) => {
             let consumed = bytes.len() - r.len();
+            phase(2);
             let size = v.mls_encoded_len();
+            phase(3);
             match v.mls_encode_to_vec() {
                 Ok(re) => format!("ok {consumed} {size} {}", if re.as_slice() == &bytes[..consumed] { "same" } else { "diff" }),
                 Err(_) => format!("ok {consumed} {size} encerr"),
@@ -544,11 +561,14 @@ fn probe_plain<T: MlsDecode + MlsEncode + MlsSize>(bytes: &[u8]) -> String {
 
 fn probe_v<T: MlsDecode + MlsEncode + MlsSize + ToVal>(bytes: &[u8]) -> String {
     let mut r = bytes;
+    phase(1);
     match T::mls_decode(&mut r) {
         Err(_) => "err".into(),
         Ok(v) => {
             let consumed = bytes.len() - r.len();
+            phase(2);
             let size = v.mls_encoded_len();
+            phase(3);
             match v.mls_encode_to_vec() {
                 Ok(re) => format!("ok {consumed} {size} {} {}", if re.as_slice() == &bytes[..consumed] { "same" } else { "diff" }, v.val()),
                 Err(_) => format!("ok {consumed} {size} encerr"),
@@ -609,7 +629,7 @@ fn harvest(seed: u64, corpus: &mut Corpus, notes: &mut Vec<String>) {
     let mut prof = Profile::default_mix();
     prof.p_reload = 0;
     let mut hist = Hist {
-        w: new_world(Default::default(), "/tmp/vharness-scratch-c12"),
+        w: new_world(Default::default(), &crate::util::scratch("c12")),
         rng: Rng::new(seed),
         prof,
         rep: Report::default(),
@@ -719,7 +739,7 @@ fn harvest(seed: u64, corpus: &mut Corpus, notes: &mut Vec<String>) {
             }
         }
     }
-    let _ = std::fs::remove_dir_all("/tmp/vharness-scratch-c12");
+    let _ = std::fs::remove_dir_all(&crate::util::scratch("c12"));
 }
 
 /// state (never sent on the wire) containing hash maps: re-encoding may permute entries
@@ -729,8 +749,11 @@ const UNORDERED_STATE: [&str; 4] = ["Snapshot", "ExternalSnapshot", "PriorEpoch"
 const EXACT_REFINED: [&str; 2] = ["LeafIndex", "ExtensionList"];
 
 /// wire types: whatever decodes must re-encode to exactly the bytes consumed
-const STRICT: [&str; 12] =
-    ["MlsMessage", "PublicMessage", "PrivateMessage", "KeyPackage", "GroupInfo", "Welcome", "NodeVec", "GroupContext", "LeafNode", "Proposal", "Commit", "UpdatePath"];
+const STRICT: [&str; 17] = [
+    "MlsMessage", "PublicMessage", "PrivateMessage", "KeyPackage", "GroupInfo", "Welcome", "NodeVec", "GroupContext", "LeafNode", "Proposal", "Commit", "UpdatePath",
+    // wire structs that only travel encrypted or as MAC / AAD input
+    "GroupSecrets", "SenderData", "MembershipTag", "SenderDataAAD", "PrivateContentAAD",
+];
 
 // ---------------------------------------------------------------------------------------------------------------------
 
@@ -742,6 +765,16 @@ struct Stats {
     max_ratio_milli: u64,
     max_ratio_case: String,
     cases: u64,
+    modelled: BTreeSet<String>,
+    /// schema types without a decode probe, `name(reason)`
+    unprobed: Vec<String>,
+    codec_rows: BTreeMap<String, u64>,
+    by_type: BTreeMap<String, u64>,
+    notes: Vec<String>,
+    /// the slowest single codec call (information only; the deadline is the oracle)
+    slowest: (Duration, String),
+    /// work-bound oracle: cases, largest number of element decodes, largest ratio element decodes / input bytes (milli)
+    work: (u64, u64, u64),
 }
 
 impl Stats {
@@ -752,12 +785,219 @@ impl Stats {
     }
 }
 
-/// run one decode under the panic guard and the allocation meter
-fn guarded_probe(name: &str, bytes: &[u8], st: &mut Stats, kind: &str) -> String {
-    crate::alloc_meter::set_case(name, bytes);
-    let base = crate::alloc_meter::start();
-    let r = std::panic::catch_unwind(|| probe(name, bytes));
-    let peak = crate::alloc_meter::peak_since(base);
+// ---------------------------------------------------------------------------------------------------------------------
+// shared run state and the per-call deadline
+//
+// The state the summary is printed from lives behind mutexes that the main thread takes only BETWEEN codec calls, never
+// during one, so that the watchdog thread can add the failure line, flush the rows and print the summary while the main
+// thread is stuck inside a call.
+
+/// the codec call that is running now
+struct Call {
+    active: bool,
+    name: String,
+    kind: String,
+    /// `None`: a probe (decode, then size, then encode: the hook's phase marker says which one); `Some`: a single call
+    phase: Option<&'static str>,
+    /// the input bytes, or (for an encode of a value that was not decoded from bytes) a description of the value
+    input: Vec<u8>,
+    input_is_text: bool,
+    start: Instant,
+    /// the deadline of this call
+    limit: Duration,
+}
+
+struct Shared {
+    dir: String,
+    deadline: Duration,
+    st: Mutex<Stats>,
+    qa: Mutex<QA>,
+    call: Mutex<Call>,
+}
+
+fn lock<T>(m: &Mutex<T>) -> MutexGuard<'_, T> {
+    m.lock().unwrap_or_else(|e| e.into_inner())
+}
+
+impl Shared {
+    /// never hold this guard across `timed`
+    fn st(&self) -> MutexGuard<'_, Stats> {
+        lock(&self.st)
+    }
+    fn put(&self, q: &str, a: &str) {
+        lock(&self.qa).put(q, a);
+    }
+    fn begin(&self, name: &str, kind: &str, phase: Option<&'static str>, input: &[u8], input_is_text: bool) {
+        let mut c = lock(&self.call);
+        c.name.clear();
+        c.name.push_str(name);
+        c.kind.clear();
+        c.kind.push_str(kind);
+        c.phase = phase;
+        c.input.clear();
+        c.input.extend_from_slice(input);
+        c.input_is_text = input_is_text;
+        mls_rs::verif::codec::PHASE.store(0, Relaxed);
+        c.limit = self.deadline;
+        c.start = Instant::now();
+        c.active = true;
+    }
+    fn end(&self) {
+        let (dt, what) = {
+            let mut c = lock(&self.call);
+            c.active = false;
+            let dt = c.start.elapsed();
+            (dt, if dt > Duration::from_millis(2) && c.kind != "harvest" { Some(format!("{} {} len={}", c.name, c.kind, c.input.len())) } else { None })
+        };
+        if let Some(what) = what {
+            let mut st = self.st();
+            if dt > st.slowest.0 {
+                st.slowest = (dt, what);
+            }
+        }
+    }
+    /// one codec call (or one probe = decode + size + encode of one input) under the deadline; `f` must not unwind
+    fn timed<T>(&self, name: &str, kind: &str, phase: Option<&'static str>, bytes: &[u8], f: impl FnOnce() -> T) -> T {
+        self.begin(name, kind, phase, bytes, false);
+        let r = f();
+        self.end();
+        r
+    }
+    /// A whole group history (thousands of codec calls inside the library, plus key generation, signatures and HPKE) under ten
+    /// times the deadline: a codec call that hangs in there has no input the harness knows, but the run still ends with a
+    /// failure line instead of a timeout of the whole check.
+    fn timed_history<T>(&self, seed: u64, f: impl FnOnce() -> T) -> T {
+        self.begin("(group history)", "harvest", Some("generation"), format!("history seed {seed} (keys are fresh random: not reproducible byte for byte)").as_bytes(), true);
+        lock(&self.call).limit = self.deadline * 10;
+        let r = f();
+        self.end();
+        r
+    }
+    /// the same for the encode / size of a value that does not come from bytes (`what` describes it)
+    fn timed_value<T>(&self, name: &str, kind: &str, phase: &'static str, what: &str, f: impl FnOnce() -> T) -> T {
+        self.begin(name, kind, Some(phase), what.as_bytes(), true);
+        let r = f();
+        self.end();
+        r
+    }
+}
+
+/// CPU seconds the main thread has used so far (Linux; information for the failure line only)
+fn main_thread_cpu_s() -> Option<f64> {
+    let pid = std::process::id();
+    let s = std::fs::read_to_string(format!("/proc/self/task/{pid}/stat")).ok()?;
+    let rest = &s[s.rfind(')')? + 1..];
+    let f: Vec<&str> = rest.split_whitespace().collect();
+    // after "pid (comm)": state is field 3, utime 14, stime 15 (1-based)
+    let ut: f64 = f.get(11)?.parse().ok()?;
+    let stime: f64 = f.get(12)?.parse().ok()?;
+    Some((ut + stime) / 100.0)
+}
+
+/// The watchdog: wakes up every 50 ms and looks at the call that is running.  Only the wall time of ONE call counts (the start
+/// is taken when the call begins, nothing is accumulated), so a slow or loaded machine that stretches the whole run does not
+/// trigger it; a decode of at most 40 kB that needs more than the deadline (default 20 s) does.  A running call cannot be
+/// cancelled, so the run ends here: failure line, rows flushed (both files complete lines, same count), summary, exit.
+fn spawn_watchdog(sh: Arc<Shared>) {
+    std::thread::spawn(move || loop {
+        std::thread::sleep(Duration::from_millis(50));
+        let c = lock(&sh.call);
+        if !c.active {
+            continue;
+        }
+        let dt = c.start.elapsed();
+        if dt <= c.limit {
+            continue;
+        }
+        let phase = c.phase.unwrap_or(match mls_rs::verif::codec::PHASE.load(Relaxed) {
+            2 => "size",
+            3 => "encode",
+            _ => "decode",
+        });
+        let input = if c.input_is_text { String::from_utf8_lossy(&c.input).into_owned() } else { hex(&c.input) };
+        let cpu = main_thread_cpu_s().map(|x| format!("{x:.1}")).unwrap_or("?".into());
+        let line = format!(
+            "deadline: {phase} of {} did not return within {} s ({} input, {} bytes; main thread cpu {cpu} s of the run): {input}",
+            c.name,
+            c.limit.as_secs_f64(),
+            c.kind,
+            c.input.len()
+        );
+        // the main thread is inside the call and holds neither lock (see `Shared::st`); do not wait forever all the same
+        let rows = {
+            let t0 = Instant::now();
+            loop {
+                if let Ok(mut qa) = sh.qa.try_lock() {
+                    break qa.flush();
+                }
+                if t0.elapsed() > Duration::from_secs(2) {
+                    break 0;
+                }
+                std::thread::sleep(Duration::from_millis(10));
+            }
+        };
+        let t0 = Instant::now();
+        loop {
+            if let Ok(mut st) = sh.st.try_lock() {
+                st.fails.push(line.clone());
+                st.notes.push(format!("run stopped by the per-call deadline in {phase} of {}", c.name));
+                print_summary(&st, rows);
+                write_failures(&sh.dir, &st.fails);
+                break;
+            }
+            if t0.elapsed() > Duration::from_secs(2) {
+                println!("rows {rows}");
+                println!("notes run stopped by the per-call deadline in {phase} of {} (statistics not available)", c.name);
+                println!("oracle_failures 1");
+                write_failures(&sh.dir, &[line.clone()]);
+                break;
+            }
+            std::thread::sleep(Duration::from_millis(10));
+        }
+        use std::io::Write;
+        let _ = std::io::stdout().flush();
+        // the exit code of a run that found failures: they are reported through `oracle_failures` and `c12.failures`
+        std::process::exit(0);
+    });
+}
+
+fn write_failures(dir: &str, fails: &[String]) {
+    std::fs::write(format!("{dir}/c12.failures"), fails.join("\n")).unwrap();
+    std::fs::write(format!("{dir}/c12.samples"), "").unwrap();
+}
+
+fn kv(m: &BTreeMap<String, u64>) -> String {
+    m.iter().map(|(k, v)| format!("{k}={v}")).collect::<Vec<_>>().join(",")
+}
+
+fn print_summary(st: &Stats, rows: u64) {
+    println!("rows {rows}");
+    println!("cases {}", st.cases);
+    println!("modelled_types {}", st.modelled.len());
+    println!("schema_types_without_probe {}", st.unprobed.join(","));
+    println!("inputs {}", kv(&st.inputs));
+    println!("outcomes {}", kv(&st.outcomes));
+    println!("codec_model_rows {}", kv(&st.codec_rows));
+    println!("produced_values {}", kv(&st.by_type));
+    let low: Vec<String> = st.accepted_by_type.iter().filter(|(_, (a, n))| *n > 50 && *a * 10 < *n).map(|(k, (a, n))| format!("{k}={a}/{n}")).collect();
+    println!("low_acceptance_types {}", low.join(","));
+    println!("max_alloc_per_input_byte {}.{:03} ({})", st.max_ratio_milli / 1000, st.max_ratio_milli % 1000, st.max_ratio_case);
+    println!("work_bound cases={},max_element_decodes={},max_element_decodes_per_input_byte={}.{:03}", st.work.0, st.work.1, st.work.2 / 1000, st.work.2 % 1000);
+    println!("slowest_call {:.3}s ({})", st.slowest.0.as_secs_f64(), st.slowest.1);
+    println!("notes {}", st.notes.join(";"));
+    println!("oracle_failures {}", st.fails.len());
+}
+
+/// run one decode under the panic guard, the allocation meter and the deadline
+fn guarded_probe(name: &str, bytes: &[u8], sh: &Shared, kind: &str) -> String {
+    let (r, peak) = sh.timed(name, kind, None, bytes, || {
+        crate::alloc_meter::set_case(name, bytes);
+        let base = crate::alloc_meter::start();
+        let r = std::panic::catch_unwind(|| probe(name, bytes));
+        (r, crate::alloc_meter::peak_since(base))
+    });
+    let mut st = sh.st();
+    let st = &mut *st;
     st.cases += 1;
     *st.inputs.entry(kind.to_string()).or_default() += 1;
     let ans = match r {
@@ -811,12 +1051,222 @@ fn guarded_probe(name: &str, bytes: &[u8], st: &mut Stats, kind: &str) -> String
 }
 
 /// a row for a type of the generated codec table; for state types with unordered maps the same/diff field is not compared
-fn put_codec_row(qa: &mut QA, name: &str, bytes: &[u8], ans: &str) {
+fn put_codec_row(sh: &Shared, name: &str, bytes: &[u8], ans: &str) {
     if UNORDERED_STATE.contains(&name) {
-        qa.put(&format!("deccu {name} {}", hex(bytes)), &ans.replace(" same", " any").replace(" diff", " any"));
+        sh.put(&format!("deccu {name} {}", hex(bytes)), &ans.replace(" same", " any").replace(" diff", " any"));
     } else {
-        qa.put(&format!("decc {name} {}", hex(bytes)), ans);
+        sh.put(&format!("decc {name} {}", hex(bytes)), ans);
     }
+    *sh.st().codec_rows.entry(name.to_string()).or_default() += 1;
+}
+
+// ---------------------------------------------------------------------------------------------------------------------
+// work bound without a clock: element types that count their decodes
+//
+// What the real codec does (mls-rs-codec vec.rs / map.rs / iter.rs): the declared byte length L of a vector is checked against
+// the remaining input first (`mls_decode_split_on_collection`), the elements are decoded from exactly these L bytes, and an
+// element decode that consumes nothing ends the decode with `InvalidContent`.  So every successful element decode costs at
+// least one input byte: n input bytes can produce at most n elements, a declared length of 0 gives 0 elements, and elements
+// of size 0 (`[u8; 0]`, an empty struct) can only ever appear in the empty vector; a huge declared length with a short input is
+// `UnexpectedEOF` before any element is looked at.  The oracle pins this down on the generic containers with element types
+// that count how often they are decoded.  They also give up (error) beyond a limit far above the bound, so that a decoder that
+// would spin on zero-size elements fails here at once and deterministically, not by the deadline.
+mod tick {
+    use mls_rs::mls_rs_codec::{self, Error, MlsDecode, MlsEncode, MlsSize};
+    use std::sync::atomic::{AtomicU64, Ordering::Relaxed};
+    pub static TICKS: AtomicU64 = AtomicU64::new(0);
+    pub static LIMIT: AtomicU64 = AtomicU64::new(u64::MAX);
+    fn tick() -> Result<(), Error> {
+        if TICKS.fetch_add(1, Relaxed) >= LIMIT.load(Relaxed) {
+            Err(Error::Custom(77))
+        } else {
+            Ok(())
+        }
+    }
+    /// an element of encoded size 0
+    #[derive(Clone, Debug, PartialEq, Eq, Hash, PartialOrd, Ord)]
+    pub struct Z;
+    impl MlsSize for Z {
+        fn mls_encoded_len(&self) -> usize {
+            0
+        }
+    }
+    impl MlsEncode for Z {
+        fn mls_encode(&self, _: &mut Vec<u8>) -> Result<(), Error> {
+            Ok(())
+        }
+    }
+    impl MlsDecode for Z {
+        fn mls_decode(_: &mut &[u8]) -> Result<Self, Error> {
+            tick()?;
+            Ok(Z)
+        }
+    }
+    /// an element of encoded size 1
+    #[derive(Clone, Debug, PartialEq, Eq, Hash, PartialOrd, Ord)]
+    pub struct B1(pub u8);
+    impl MlsSize for B1 {
+        fn mls_encoded_len(&self) -> usize {
+            1
+        }
+    }
+    impl MlsEncode for B1 {
+        fn mls_encode(&self, w: &mut Vec<u8>) -> Result<(), Error> {
+            w.push(self.0);
+            Ok(())
+        }
+    }
+    impl MlsDecode for B1 {
+        fn mls_decode(r: &mut &[u8]) -> Result<Self, Error> {
+            tick()?;
+            u8::mls_decode(r).map(B1)
+        }
+    }
+    /// a derived struct of size 0 with three counted fields
+    #[derive(Clone, Debug, PartialEq, MlsSize, MlsEncode, MlsDecode)]
+    pub struct Z3 {
+        pub a: Z,
+        pub b: Z,
+        pub c: Z,
+    }
+}
+
+/// decode `bytes` as `T` and count the element decodes: at most `2 * len + 4` (in fact `len + 1` for single elements; the
+/// struct of three zero-size fields needs three for its one failing attempt); a successful decode must also round-trip
+/// (maps: to the same length; they accept their entries in any order and write them sorted)
+fn work_case<T: MlsDecode + MlsEncode + MlsSize>(label: &str, bytes: &[u8], sh: &Shared) {
+    let canon = !label.contains("Map<");
+    let n = bytes.len() as u64;
+    tick::TICKS.store(0, Relaxed);
+    tick::LIMIT.store(4 * n + 64, Relaxed);
+    let r = sh.timed(label, "work-bound", None, bytes, || {
+        std::panic::catch_unwind(|| {
+            let mut rd = bytes;
+            phase(1);
+            let v = T::mls_decode(&mut rd).ok()?;
+            let consumed = bytes.len() - rd.len();
+            phase(2);
+            let size = v.mls_encoded_len();
+            phase(3);
+            let re = v.mls_encode_to_vec().ok();
+            Some((consumed, size, re.as_deref() == Some(&bytes[..consumed])))
+        })
+    });
+    let ticks = tick::TICKS.load(Relaxed);
+    tick::LIMIT.store(u64::MAX, Relaxed);
+    let mut st = sh.st();
+    st.cases += 1;
+    st.work.0 += 1;
+    st.work.1 = st.work.1.max(ticks);
+    st.work.2 = st.work.2.max(ticks * 1000 / n.max(1));
+    if ticks > 2 * n + 4 {
+        st.fail(format!("decoding {label} performed {ticks} element decodes (stopped there) for {n} input bytes: {}", hex(&bytes[..bytes.len().min(64)])));
+    }
+    match r {
+        Err(_) => st.fail(format!("decoding {label} panics on {}", hex(&bytes[..bytes.len().min(64)]))),
+        Ok(Some((consumed, size, same))) => {
+            if consumed > bytes.len() || size != consumed || (canon && !same) {
+                st.fail(format!("{label}: decoded but consumed {consumed}, size {size}, re-encodes to the same bytes: {same}: {}", hex(&bytes[..bytes.len().min(64)])));
+            }
+        }
+        Ok(None) => {}
+    }
+}
+
+fn work_bound(rng: &mut Rng, sh: &Shared) {
+    use tick::{B1, Z, Z3};
+    // inputs: a declared length L (boundaries of the variable-length integer, far beyond the input) over fillings of L bytes
+    // (or fewer), nested headers, and mutations of these
+    let mut inputs: Vec<Vec<u8>> = vec![vec![], vec![0], vec![0, 0], vec![1], vec![1, 0], vec![1, 0xff], vec![2, 1, 0xff], vec![2, 0, 0], vec![3, 1, 0, 0]];
+    for l in [1usize, 2, 3, 5, 63, 64, 65, 1000, 16383, 16384, 39990] {
+        for fill in 0..5 {
+            let mut b = varint(l as u64);
+            match fill {
+                0 => b.extend(std::iter::repeat(0u8).take(l)),
+                1 => b.extend(std::iter::repeat(1u8).take(l)),
+                2 => b.extend(std::iter::repeat(0xffu8).take(l)),
+                3 => b.extend((0..l).map(|i| i as u8)),
+                // declared length beyond the input
+                _ => b.extend(std::iter::repeat(0u8).take(l.min(7) - 1)),
+            }
+            inputs.push(b);
+        }
+    }
+    for huge in [&[0xbf, 0xff, 0xff, 0xff][..], &[0x80, 0x01, 0x00, 0x00], &[0x7f, 0xff], &[0xbf, 0xff, 0xff, 0xff, 0, 0, 0, 0], &[0x80, 0x00, 0x40, 0x00, 1, 1, 1]] {
+        inputs.push(huge.to_vec());
+    }
+    // vectors of empty vectors / of options: many elements of one byte each
+    for k in [1usize, 7, 63, 64, 5000] {
+        inputs.push(prefixed(vec![0u8; k]));
+        inputs.push(prefixed(vec![1u8; k]));
+        inputs.push(prefixed((0..k).flat_map(|i| [1u8, i as u8]).collect()));
+    }
+    let base = inputs.len();
+    for i in 0..300 {
+        let src = inputs[i % base].clone();
+        if src.len() > 200 {
+            continue;
+        }
+        let (_, m) = mutate(&src, rng);
+        inputs.push(m);
+    }
+    for _ in 0..100 {
+        let l = rng.below(12) as usize;
+        inputs.push(rng.bytes(l));
+    }
+    for b in &inputs {
+        work_case::<Vec<Z>>("Vec<Z0>", b, sh);
+        work_case::<Vec<Z3>>("Vec<Z0x3>", b, sh);
+        work_case::<Vec<Vec<Z>>>("Vec<Vec<Z0>>", b, sh);
+        work_case::<Vec<Option<Z>>>("Vec<Option<Z0>>", b, sh);
+        work_case::<Option<Vec<Z>>>("Option<Vec<Z0>>", b, sh);
+        work_case::<Vec<B1>>("Vec<B1>", b, sh);
+        work_case::<Vec<Vec<B1>>>("Vec<Vec<B1>>", b, sh);
+        work_case::<Vec<[u8; 0]>>("Vec<[u8;0]>", b, sh);
+        work_case::<Vec<VEmpty>>("Vec<VEmpty>", b, sh);
+        work_case::<BTreeMap<Z, Z>>("BTreeMap<Z0,Z0>", b, sh);
+        work_case::<BTreeMap<B1, Z>>("BTreeMap<B1,Z0>", b, sh);
+        work_case::<HashMap<B1, Vec<Z>>>("HashMap<B1,Vec<Z0>>", b, sh);
+        work_case::<HashMap<Z, B1>>("HashMap<Z0,B1>", b, sh);
+    }
+}
+
+// ---------------------------------------------------------------------------------------------------------------------
+
+/// Schema types that cannot have a decode probe, with the reason.  Encode-only types are inputs of hashes, signatures, KDFs and
+/// AEAD contexts (`MlsSize + MlsEncode` only, mostly with borrowed fields): nothing in the library ever decodes them.
+const NO_DECODE: [(&str, &str); 16] = [
+    ("ComponentOperationLabel", "encode-only; borrowed fields; label of the safe-application component operations"),
+    ("EncryptContext", "encode-only; borrowed fields; HPKE info of EncryptWithLabel"),
+    ("ExtensionsVec", "test-only type; cfg(test) mod tests of mls-rs-core extension/list.rs; encode-only"),
+    ("InterimTranscriptHashInput", "encode-only; borrowed field; local to InterimTranscriptHash::create; bytes compared through the th/thp rows"),
+    ("Label", "encode-only; borrowed fields; KDFLabel; bytes compared through the C13 ewl/ks rows"),
+    ("PSKLabel", "encode-only; borrowed field; bytes compared through the C13/C18 psk rows"),
+    ("ParentHashInput", "encode-only; borrowed fields; parent-hash input"),
+    ("ParentNodeTreeHashInput", "encode-only; borrowed fields; tree-hash input"),
+    ("RefHashInput", "encode-only; borrowed fields; input of key-package and proposal references"),
+    ("SignContent", "encode-only; input of SignWithLabel"),
+    ("SignableGroupInfo", "encode-only; borrowed fields; to-be-signed GroupInfo"),
+    ("TestEncryptable", "test-only type; cfg(test) mod test_utils of tree_kem/hpke_encryption.rs"),
+    ("TestExtension", "test-only type; cfg(test) mod test_utils of mls-rs extension.rs"),
+    ("TestExtensionA", "test-only type; cfg(test) mod tests of mls-rs-core extension/list.rs"),
+    ("TestExtensionB", "test-only type; cfg(test) mod tests of mls-rs-core extension/list.rs"),
+    ("TestExtensionC", "test-only type; cfg(test) mod tests of mls-rs-core extension/list.rs"),
+];
+
+/// deterministic inputs for the type with vectors of zero-size elements (compared with the model like every other row)
+fn zero_elem_inputs() -> Vec<Vec<u8>> {
+    let mut v: Vec<Vec<u8>> = vec![vec![0, 0], vec![1, 0xff, 0], vec![0, 1, 0xff], vec![0, 1], vec![1, 0], vec![0xbf, 0xff, 0xff, 0xff], vec![0, 0xbf, 0xff, 0xff, 0xff], vec![0x40, 0x00, 0], vec![0, 0x80, 0, 0, 0]];
+    for l in [63usize, 64, 16384] {
+        let mut a = varint(l as u64);
+        a.extend(std::iter::repeat(0u8).take(l));
+        a.push(0);
+        v.push(a.clone());
+        let mut b = vec![0u8];
+        b.extend(&a[..a.len() - 1]);
+        v.push(b);
+    }
+    v
 }
 
 pub fn run(o: &Opts) -> i32 {
@@ -833,10 +1283,35 @@ pub fn run(o: &Opts) -> i32 {
         .filter_map(|l| l.split('\t').next().map(|x| x.to_string()))
         .filter(|x| !x.is_empty())
         .collect();
-    let mut st = Stats { fails: vec![], inputs: Default::default(), outcomes: Default::default(), accepted_by_type: Default::default(), max_ratio_milli: 0, max_ratio_case: String::new(), cases: 0 };
-    let mut qa = QA::create(&dir, "c12");
-    let mut modelled: BTreeSet<String> = BTreeSet::new();
-    let mut unprobed = vec![];
+    let st = Stats {
+        fails: vec![],
+        inputs: Default::default(),
+        outcomes: Default::default(),
+        accepted_by_type: Default::default(),
+        max_ratio_milli: 0,
+        max_ratio_case: String::new(),
+        cases: 0,
+        modelled: Default::default(),
+        unprobed: vec![],
+        codec_rows: Default::default(),
+        by_type: Default::default(),
+        notes: vec![],
+        slowest: (Duration::ZERO, String::new()),
+        work: (0, 0, 0),
+    };
+    // a deadline for every single codec call (wall time of that call alone)
+    let deadline = Duration::from_millis(o.u64("deadline_ms", o.u64("deadline_s", 20) * 1000).max(1));
+    let sh = Arc::new(Shared {
+        dir: dir.clone(),
+        deadline,
+        st: Mutex::new(st),
+        qa: Mutex::new(QA::create(&dir, "c12")),
+        call: Mutex::new(Call { active: false, name: String::new(), kind: String::new(), phase: None, input: Vec::with_capacity(1 << 16), input_is_text: false, start: Instant::now(), limit: deadline }),
+    });
+    // a failures file from an earlier run must not survive a run that is killed from outside
+    let _ = std::fs::remove_file(format!("{dir}/c12.failures"));
+    spawn_watchdog(sh.clone());
+    let sh: &Shared = &sh;
 
     // ---- (0) the variable-length integer itself: range check + encoding of length headers, decoding of raw bytes ----------
     {
@@ -847,11 +1322,11 @@ pub fn run(o: &Opts) -> i32 {
             ns.push(if bits == 0 { 0 } else { (rng.below(1u64 << bits) as u32) | (1u32 << (bits - 1).min(31)) });
         }
         for n in ns {
-            let ans = match VarInt::try_from(n) {
+            let ans = sh.timed_value("VarInt", "varint", "encode", &format!("{n}"), || match VarInt::try_from(n) {
                 Ok(v) => v.mls_encode_to_vec().map(|b| hex(&b)).unwrap_or("err".into()),
                 Err(_) => "err".into(),
-            };
-            qa.put(&format!("vi {n}"), &ans);
+            });
+            sh.put(&format!("vi {n}"), &ans);
         }
         let mut raws: Vec<Vec<u8>> = vec![vec![0x3f], vec![0x40, 0x3f], vec![0x40, 0x40], vec![0x7f, 0xff], vec![0x80, 0, 0x3f, 0xff], vec![0x80, 0, 0x40, 0], vec![0xbf, 0xff, 0xff, 0xff], vec![0xc0], vec![0xff, 0xff, 0xff, 0xff], vec![0x7f], vec![0x80, 0, 0]];
         for _ in 0..300 {
@@ -869,37 +1344,58 @@ pub fn run(o: &Opts) -> i32 {
             raws.push(b);
         }
         for b in raws {
-            let mut rd: &[u8] = &b;
-            let ans = match VarInt::mls_decode(&mut rd) {
-                Ok(v) => format!("{} {}", u32::from(v), b.len() - rd.len()),
-                Err(_) => "err".into(),
-            };
-            qa.put(&format!("vd {}", hex(&b)), &ans);
+            let ans = sh.timed("VarInt", "varint", Some("decode"), &b, || {
+                let mut rd: &[u8] = &b;
+                match VarInt::mls_decode(&mut rd) {
+                    Ok(v) => format!("{} {}", u32::from(v), b.len() - rd.len()),
+                    Err(_) => "err".into(),
+                }
+            });
+            sh.put(&format!("vd {}", hex(&b)), &ans);
         }
     }
+
+    // ---- (0b) work bound without a clock: element decodes of the generic containers are bounded by the input length --------
+    // (its own generator state, so that the inputs of the other sections do not depend on it)
+    work_bound(&mut Rng::new(o.seed() ^ 0x776f726b), sh);
 
     // ---- (1) types with a generated schema: implementation vs model --------------------------------------------------
     for (name, refined, sch) in &schemas {
         if probe(name, &[]).is_none() {
-            unprobed.push(name.clone());
+            let reason = NO_DECODE.iter().find(|(n, _)| n == name).map(|(_, r)| *r);
+            if reason.is_none() {
+                sh.st().notes.push(format!("schema type {name} has no decode probe and no recorded reason: add it to the probe table of verif::codec"));
+            }
+            sh.st().unprobed.push(format!("{name}({})", reason.unwrap_or("UNCLASSIFIED: no probe and no recorded reason")));
             continue;
         }
-        modelled.insert(name.clone());
+        sh.st().modelled.insert(name.clone());
         let is_v = name.starts_with('V');
+        if name == "VZeroElems" {
+            for bytes in zero_elem_inputs() {
+                let ans = guarded_probe(name, &bytes, sh, "zero-size-elements");
+                if ans != "panic" {
+                    sh.put(&format!("dec {name} {}", hex(&bytes)), &ans);
+                }
+            }
+        }
         for k in 0..per_type {
             let (kind, bytes): (String, Vec<u8>) = match k % 10 {
                 0..=3 => {
                     // a valid encoding: for the test types the real encoder of a random value, otherwise the schema generator
                     let b = if is_v && k % 2 == 0 {
+                        fn enc<T: MlsEncode + std::fmt::Debug>(sh: &Shared, name: &str, v: T) -> Vec<u8> {
+                            sh.timed_value(name, "valid", "encode", &format!("{v:?}"), || v.mls_encode_to_vec().unwrap())
+                        }
                         match name.as_str() {
-                            "VInts" => r_ints(&mut rng).mls_encode_to_vec().unwrap(),
-                            "VChoice" => r_choice(&mut rng).mls_encode_to_vec().unwrap(),
-                            "VWide" => r_wide(&mut rng).mls_encode_to_vec().unwrap(),
-                            "VNest" => r_nest(&mut rng).mls_encode_to_vec().unwrap(),
-                            "VMaps" => r_maps(&mut rng).mls_encode_to_vec().unwrap(),
-                            "VWrap" => VWrap((0..rng.below(3)).map(|_| r_nest(&mut rng)).collect()).mls_encode_to_vec().unwrap(),
-                            "VEmpty" => VEmpty {}.mls_encode_to_vec().unwrap(),
-                            _ => VZeroElems { zs: vec![], es: vec![] }.mls_encode_to_vec().unwrap(),
+                            "VInts" => enc(sh, name, r_ints(&mut rng)),
+                            "VChoice" => enc(sh, name, r_choice(&mut rng)),
+                            "VWide" => enc(sh, name, r_wide(&mut rng)),
+                            "VNest" => enc(sh, name, r_nest(&mut rng)),
+                            "VMaps" => enc(sh, name, r_maps(&mut rng)),
+                            "VWrap" => enc(sh, name, VWrap((0..rng.below(3)).map(|_| r_nest(&mut rng)).collect())),
+                            "VEmpty" => enc(sh, name, VEmpty {}),
+                            _ => enc(sh, name, VZeroElems { zs: vec![], es: vec![] }),
                         }
                     } else {
                         gen(sch, &mut rng, 0)
@@ -925,7 +1421,7 @@ pub fn run(o: &Opts) -> i32 {
             if bytes.len() > 40000 {
                 continue;
             }
-            let ans = guarded_probe(name, &bytes, &mut st, &kind);
+            let ans = guarded_probe(name, &bytes, sh, &kind);
             if kind == "valid" && !ans.starts_with("ok") && !*refined {
                 // not a failure by itself (the generator is only an input generator) but the model must agree
             }
@@ -933,7 +1429,7 @@ pub fn run(o: &Opts) -> i32 {
                 continue;
             }
             let verb = if codec_names.contains(name) { "decc" } else if *refined && ans == "err" && !EXACT_REFINED.contains(&name.as_str()) { "decx" } else { "dec" };
-            qa.put(&format!("{verb} {name} {}", hex(&bytes)), &ans);
+            sh.put(&format!("{verb} {name} {}", hex(&bytes)), &ans);
         }
     }
 
@@ -942,68 +1438,67 @@ pub fn run(o: &Opts) -> i32 {
     let mut notes = vec![];
     let hn = o.u64("histories", if o.thorough() { 12 } else { 3 });
     for _ in 0..hn {
-        harvest(rng.next(), &mut corpus, &mut notes);
+        let seed = rng.next();
+        sh.timed_history(seed, || harvest(seed, &mut corpus, &mut notes));
     }
-    let mut by_type: BTreeMap<&str, u64> = BTreeMap::new();
-    let mut codec_rows: BTreeMap<String, u64> = BTreeMap::new();
+    sh.st().notes.append(&mut notes);
+    let modelled: BTreeSet<String> = sh.st().modelled.clone();
     let muts = o.u64("mutations", if o.thorough() { 60 } else { 12 });
     let mut seen: BTreeSet<Vec<u8>> = BTreeSet::new();
     for (name, bytes) in &corpus.items {
         if !seen.insert([name.as_bytes(), &bytes[..]].concat()) {
             continue;
         }
-        *by_type.entry(name).or_default() += 1;
-        let ans = guarded_probe(name, bytes, &mut st, "produced");
+        *sh.st().by_type.entry(name.to_string()).or_default() += 1;
+        let ans = guarded_probe(name, bytes, sh, "produced");
         let want = format!("ok {} {} same", bytes.len(), bytes.len());
         // stored state holds unordered maps (ratchet history, proposal cache, tree index) whose iteration order is not part of the
         // value: the round trip returns the same value and the same number of bytes, not necessarily the same byte order
         let want_unordered = format!("ok {} {} diff", bytes.len(), bytes.len());
         if ans != want && !(UNORDERED_STATE.contains(name) && ans == want_unordered) {
-            st.fail(format!("{name}: a value the library produced does not round-trip exactly: got `{ans}`, want `{want}`: {}", hex(&bytes[..bytes.len().min(80)])));
+            sh.st().fail(format!("{name}: a value the library produced does not round-trip exactly: got `{ans}`, want `{want}`: {}", hex(&bytes[..bytes.len().min(80)])));
         }
         let in_codecs = codec_names.contains(*name);
         if in_codecs {
-            put_codec_row(&mut qa, name, bytes, &ans);
-            *codec_rows.entry(name.to_string()).or_default() += 1;
+            put_codec_row(sh, name, bytes, &ans);
         } else if modelled.contains(*name) {
-            qa.put(&format!("dec {name} {}", hex(bytes)), &ans);
+            sh.put(&format!("dec {name} {}", hex(bytes)), &ans);
         }
         for _ in 0..muts {
             let (l, v) = mutate(bytes, &mut rng);
-            let ans = guarded_probe(name, &v, &mut st, l);
+            let ans = guarded_probe(name, &v, sh, l);
             if in_codecs && ans != "panic" {
-                put_codec_row(&mut qa, name, &v, &ans);
-                *codec_rows.entry(name.to_string()).or_default() += 1;
+                put_codec_row(sh, name, &v, &ans);
             } else if modelled.contains(*name) && ans != "panic" {
                 let refined = schemas.iter().any(|(n, r, _)| n == name && *r);
                 let verb = if refined && ans == "err" && !EXACT_REFINED.contains(name) { "decx" } else { "dec" };
-                qa.put(&format!("{verb} {name} {}", hex(&v)), &ans);
+                sh.put(&format!("{verb} {name} {}", hex(&v)), &ans);
             }
         }
         // the public entry points of the observe_at list
         match *name {
             "MlsMessage" => {
-                let r = std::panic::catch_unwind(|| MlsMessage::from_bytes(bytes).and_then(|m| m.to_bytes()));
+                let r = sh.timed("MlsMessage", "produced", Some("from_bytes/to_bytes"), bytes, || std::panic::catch_unwind(|| MlsMessage::from_bytes(bytes).and_then(|m| m.to_bytes())));
                 if !matches!(&r, Ok(Ok(b)) if b == bytes) {
-                    st.fail(format!("MlsMessage::from_bytes/to_bytes is not the identity on a produced message: {}", hex(&bytes[..bytes.len().min(80)])));
+                    sh.st().fail(format!("MlsMessage::from_bytes/to_bytes is not the identity on a produced message: {}", hex(&bytes[..bytes.len().min(80)])));
                 }
             }
             "NodeVec" => {
-                let r = std::panic::catch_unwind(|| ExportedTree::from_bytes(bytes).and_then(|m| m.to_bytes()));
+                let r = sh.timed("ExportedTree", "produced", Some("from_bytes/to_bytes"), bytes, || std::panic::catch_unwind(|| ExportedTree::from_bytes(bytes).and_then(|m| m.to_bytes())));
                 if !matches!(&r, Ok(Ok(b)) if b == bytes) {
-                    st.fail("ExportedTree::from_bytes/to_bytes is not the identity on an exported tree".into());
+                    sh.st().fail("ExportedTree::from_bytes/to_bytes is not the identity on an exported tree".into());
                 }
             }
             "PendingCommitSnapshot" => {
-                let r = std::panic::catch_unwind(|| mls_rs::group::CommitSecrets::from_bytes(bytes).and_then(|m| m.to_bytes()));
+                let r = sh.timed("CommitSecrets", "produced", Some("from_bytes/to_bytes"), bytes, || std::panic::catch_unwind(|| mls_rs::group::CommitSecrets::from_bytes(bytes).and_then(|m| m.to_bytes())));
                 if !matches!(&r, Ok(Ok(b)) if b == bytes) {
-                    st.fail("CommitSecrets::from_bytes/to_bytes is not the identity".into());
+                    sh.st().fail("CommitSecrets::from_bytes/to_bytes is not the identity".into());
                 }
             }
             "ExternalSnapshot" => {
-                let r = std::panic::catch_unwind(|| mls_rs::external_client::ExternalSnapshot::from_bytes(bytes).and_then(|m| m.to_bytes()));
+                let r = sh.timed("ExternalSnapshot", "produced", Some("from_bytes/to_bytes"), bytes, || std::panic::catch_unwind(|| mls_rs::external_client::ExternalSnapshot::from_bytes(bytes).and_then(|m| m.to_bytes())));
                 if !matches!(&r, Ok(Ok(b)) if b == bytes) {
-                    st.fail("ExternalSnapshot::from_bytes/to_bytes is not the identity".into());
+                    sh.st().fail("ExternalSnapshot::from_bytes/to_bytes is not the identity".into());
                 }
             }
             _ => {}
@@ -1021,10 +1516,9 @@ pub fn run(o: &Opts) -> i32 {
                 } else {
                     b.extend(rng.bytes(l));
                 }
-                let ans = guarded_probe("Proposal", &b, &mut st, "proposal-type-sweep");
+                let ans = guarded_probe("Proposal", &b, sh, "proposal-type-sweep");
                 if ans != "panic" {
-                    put_codec_row(&mut qa, "Proposal", &b, &ans);
-                    *codec_rows.entry("Proposal".to_string()).or_default() += 1;
+                    put_codec_row(sh, "Proposal", &b, &ans);
                 }
             }
         }
@@ -1036,23 +1530,30 @@ pub fn run(o: &Opts) -> i32 {
         use mls_rs::group::proposal::{CustomProposal, Proposal, ProposalType};
         use mls_rs::mls_rs_codec::{MlsDecode, MlsEncode};
         for t in (0u16..=10).chain([0xf000u16, 0xffff]) {
-            let p = Proposal::Custom(CustomProposal::new(ProposalType::from(t), rng.bytes(5)));
-            st.cases += 1;
-            match std::panic::catch_unwind(|| p.mls_encode_to_vec()) {
-                Err(_) => st.fail(format!("encoding a custom proposal of type {t} panics")),
+            let data = rng.bytes(5);
+            let p = Proposal::Custom(CustomProposal::new(ProposalType::from(t), data.clone()));
+            sh.st().cases += 1;
+            let what = format!("custom proposal of type {t} with data {}", hex(&data));
+            match sh.timed_value("Proposal", "custom-proposal-encode", "encode", &what, || std::panic::catch_unwind(|| p.mls_encode_to_vec())) {
+                Err(_) => sh.st().fail(format!("encoding a custom proposal of type {t} panics")),
                 Ok(Err(_)) => {
-                    *st.outcomes.entry("custom-encode:refused".into()).or_default() += 1;
+                    *sh.st().outcomes.entry("custom-encode:refused".into()).or_default() += 1;
                 }
                 Ok(Ok(b)) => {
-                    *st.outcomes.entry("custom-encode:ok".into()).or_default() += 1;
-                    match Proposal::mls_decode(&mut &*b) {
-                        Ok(q) if q == p && q.mls_encode_to_vec().ok().as_deref() == Some(&b[..]) => {}
-                        Ok(_) => st.fail(format!("a custom proposal of type {t} decodes to a different proposal")),
-                        Err(_) => st.fail(format!("the encoder produced a custom proposal of type {t} that the decoder refuses")),
+                    *sh.st().outcomes.entry("custom-encode:ok".into()).or_default() += 1;
+                    let back = sh.timed("Proposal", "custom-proposal-encode", Some("decode + encode"), &b, || {
+                        std::panic::catch_unwind(|| Proposal::mls_decode(&mut &*b).map(|q| (q == p, q.mls_encode_to_vec().ok().as_deref() == Some(&b[..]))))
+                    });
+                    match back {
+                        Ok(Ok((true, true))) => {}
+                        Ok(Ok(_)) => sh.st().fail(format!("a custom proposal of type {t} decodes to a different proposal")),
+                        Ok(Err(_)) => sh.st().fail(format!("the encoder produced a custom proposal of type {t} that the decoder refuses")),
+                        Err(_) => sh.st().fail(format!("decoding the encoding of a custom proposal of type {t} panics")),
                     }
-                    let ans = guarded_probe("Proposal", &b, &mut st, "custom-proposal-encode");
+                    let ans = guarded_probe("Proposal", &b, sh, "custom-proposal-encode");
                     if ans != "panic" && codec_names.contains("Proposal") {
-                        put_codec_row(&mut qa, "Proposal", &b, &ans);
+                        // (not counted in codec_model_rows, as before)
+                        sh.put(&format!("decc Proposal {}", hex(&b)), &ans);
                     }
                 }
             }
@@ -1066,39 +1567,32 @@ pub fn run(o: &Opts) -> i32 {
         for t in [0u16, 1, 2, 3, 0xf000, 0xffff] {
             for data in [vec![], vec![5u8], vec![1u8, 0], rng.bytes(7)] {
                 let c = Credential::Custom(CustomCredential::new(CredentialType::new(t), data.clone()));
-                st.cases += 1;
-                match std::panic::catch_unwind(|| c.mls_encode_to_vec()) {
-                    Err(_) => st.fail(format!("encoding a custom credential of type {t} panics")),
+                sh.st().cases += 1;
+                let what = format!("custom credential of type {t} with data {}", hex(&data));
+                match sh.timed_value("Credential", "custom-credential-encode", "encode", &what, || std::panic::catch_unwind(|| c.mls_encode_to_vec())) {
+                    Err(_) => sh.st().fail(format!("encoding a custom credential of type {t} panics")),
                     Ok(Err(_)) => {
-                        *st.outcomes.entry("custom-credential-encode:refused".into()).or_default() += 1;
+                        *sh.st().outcomes.entry("custom-credential-encode:refused".into()).or_default() += 1;
                     }
                     Ok(Ok(b)) => {
-                        *st.outcomes.entry("custom-credential-encode:ok".into()).or_default() += 1;
-                        match Credential::mls_decode(&mut &*b) {
-                            Ok(q) if q == c && q.mls_encode_to_vec().ok().as_deref() == Some(&b[..]) => {}
-                            Ok(_) => st.fail(format!("a custom credential of type {t} (data {}) decodes to a different credential", hex(&data))),
-                            Err(_) => st.fail(format!("the encoder produced a custom credential of type {t} (data {}) that the decoder refuses", hex(&data))),
+                        *sh.st().outcomes.entry("custom-credential-encode:ok".into()).or_default() += 1;
+                        let back = sh.timed("Credential", "custom-credential-encode", Some("decode + encode"), &b, || {
+                            std::panic::catch_unwind(|| Credential::mls_decode(&mut &*b).map(|q| (q == c, q.mls_encode_to_vec().ok().as_deref() == Some(&b[..]))))
+                        });
+                        match back {
+                            Ok(Ok((true, true))) => {}
+                            Ok(Ok(_)) => sh.st().fail(format!("a custom credential of type {t} (data {}) decodes to a different credential", hex(&data))),
+                            Ok(Err(_)) => sh.st().fail(format!("the encoder produced a custom credential of type {t} (data {}) that the decoder refuses", hex(&data))),
+                            Err(_) => sh.st().fail(format!("decoding the encoding of a custom credential of type {t} (data {}) panics", hex(&data))),
                         }
                     }
                 }
             }
         }
     }
-    let rows = qa.finish();
-    println!("rows {rows}");
-    println!("cases {}", st.cases);
-    println!("modelled_types {}", modelled.len());
-    println!("schema_types_without_probe {}", unprobed.join(","));
-    println!("inputs {}", st.inputs.iter().map(|(k, v)| format!("{k}={v}")).collect::<Vec<_>>().join(","));
-    println!("outcomes {}", st.outcomes.iter().map(|(k, v)| format!("{k}={v}")).collect::<Vec<_>>().join(","));
-    println!("codec_model_rows {}", codec_rows.iter().map(|(k, v)| format!("{k}={v}")).collect::<Vec<_>>().join(","));
-    println!("produced_values {}", by_type.iter().map(|(k, v)| format!("{k}={v}")).collect::<Vec<_>>().join(","));
-    let low: Vec<String> = st.accepted_by_type.iter().filter(|(_, (a, n))| *n > 50 && *a * 10 < *n).map(|(k, (a, n))| format!("{k}={a}/{n}")).collect();
-    println!("low_acceptance_types {}", low.join(","));
-    println!("max_alloc_per_input_byte {}.{:03} ({})", st.max_ratio_milli / 1000, st.max_ratio_milli % 1000, st.max_ratio_case);
-    println!("notes {}", notes.join(";"));
-    println!("oracle_failures {}", st.fails.len());
-    std::fs::write(format!("{dir}/c12.failures"), st.fails.join("\n")).unwrap();
-    std::fs::write(format!("{dir}/c12.samples"), "").unwrap();
+    let rows = lock(&sh.qa).flush();
+    let st = sh.st();
+    print_summary(&st, rows);
+    write_failures(&dir, &st.fails);
     0
 }
